@@ -42,7 +42,9 @@ def configs(tier, seed):
                 {"seed": 5, "mutable": 2, "err": "divide-raise", "alts": 2, "tier": tier},
                 {"seed": 6, "mutable": 0, "err": "all-ignore", "alts": 1, "tier": tier},
                 {"seed": 7, "mutable": 1, "err": "all-warn", "alts": 2, "tier": tier}]
-    return out
+    # each search is run in n processes that share the state-discovering operations and split the others
+    n = 5 if tier == "quick" else 2
+    return [dict(c, shard=[k, n]) for c in out for k in range(n)]
 
 
 def cost(cfg):
@@ -452,7 +454,8 @@ def evaluate(cfg):
             warnings.simplefilter("ignore")
             ex = HistoryExplorer(o, mk, ops, probes, parts, max_depth=30,
                                  max_states=60 if cfg.get("tier") == "quick" else 400,
-                                 on_renorm=on_renorm_factory(cfg), rebuild=rebuild_world)
+                                 on_renorm=on_renorm_factory(cfg), rebuild=rebuild_world,
+                                 shard=tuple(cfg.get("shard", (0, 1))))
             fresh = FreshProcess()
             ex.fresh = fresh
             try:
@@ -460,6 +463,7 @@ def evaluate(cfg):
             finally:
                 fresh.close()
         o.notes["operations"] = len(ops)
+        o.notes["discovery_operations"] = len([op for op in ops if op.kind not in ("call", "invalid")])
     finally:
         np.seterr(**old)
         for f in os.listdir(tmpdir):
@@ -469,10 +473,20 @@ def evaluate(cfg):
 
 
 def post(results, tier):
-    st = sum(r.get("notes", {}).get("bfs_states", 0) for r in results)
+    # states are discovered by every shard of a search: count them once per seed world (largest shard count)
+    per = {}
+    for r in results:
+        sd = r.get("cfg", {}).get("seed", id(r))
+        per[sd] = max(per.get(sd, 0), r.get("notes", {}).get("bfs_states", 0))
+    st = sum(per.values()) if per else sum(r.get("notes", {}).get("bfs_states", 0) for r in results)
+    # every shard executes the state-discovering operations: count each (state, operation) transition once
     ed = sum(r.get("notes", {}).get("bfs_edges", 0) for r in results)
+    nsh = 5 if tier == "quick" else 2
+    for sd, nst in per.items():
+        nd = max([r.get("notes", {}).get("discovery_operations", 0) for r in results if r.get("cfg", {}).get("seed") == sd] + [0])
+        ed -= (nsh - 1) * nst * nd
     closed = all(r.get("notes", {}).get("closure_reached", 0) for r in results)
     return {"coverage": {"states": st, "transitions": ed, "closure_reached": bool(closed),
                          "max_history_depth": max([r.get("notes", {}).get("max_depth", 0) for r in results] + [0]),
                          "operations_in_alphabet": max([r.get("notes", {}).get("operations", 0) for r in results] + [0]),
-                         "seed_worlds": len(results), "exhaustive": bool(closed)}}
+                         "seed_worlds": len(per) or len(results), "processes_per_search": 5 if tier == "quick" else 2, "exhaustive": bool(closed)}}
